@@ -14,6 +14,9 @@ and by `cleanP_render` where proved).
 -/
 namespace AcraModel.KeystoreSec.Path
 
+/-- byte string of an ASCII string literal (reduces by `decide`/`rfl`) -/
+def ofStr (s : String) : Bytes := s.toList.map fun c => UInt8.ofNat c.toNat
+
 def slash : UInt8 := 47
 def dot : UInt8 := 46
 def backslash : UInt8 := 92
@@ -86,12 +89,14 @@ def stripCommon : List Bytes → List Bytes → List Bytes × List Bytes
   | b :: bs, t :: ts => if b = t then stripCommon bs ts else (b :: bs, t :: ts)
   | bs, ts => (bs, ts)
 
-/-- `filepath.Rel(base, targ)` on cleaned paths: components of the result, `none` = error -/
+/-- `filepath.Rel(base, targ)` on cleaned paths: components of the result, `none` = error.
+(Go quirk kept: a base of `.` is treated as empty, a target of `.` is *not* – `Rel("a", ".") = "../."`.) -/
 def relP (b t : CPath) : Option (List Bytes) :=
   if t = b then some [[dot]]
   else if b.rooted ≠ t.rooted then none
   else
-    let (b', t') := stripCommon b.comps t.comps
+    let tc := if t.rooted = false ∧ t.comps = [] then [[dot]] else t.comps
+    let (b', t') := stripCommon b.comps tc
     if b'.head? = some dd then none
     else some (b'.map (fun _ => dd) ++ t')
 
